@@ -51,6 +51,7 @@ def run(ch, config, res):
     world = World(ch, cfg, client_impl=config.get("client", "real"), read_size=rsz)
     srv = world.server
     srv.order_variation = True
+    srv.text_lit_variation = True
     counter = [0]
     failure = [None]
     kinds = set()
